@@ -108,6 +108,7 @@ type CallRec struct {
 	CancelAt    time.Time
 	Result      any
 	Done        bool
+	Hung        bool // still running when the workload phase ended (after healing and the drain bound); set by the harness
 	cancel      context.CancelFunc
 	Ctx         context.Context
 	Notes       map[string]any
